@@ -654,6 +654,115 @@ def c17(v):
     eventtrace(v, "agree", plan, {"result", "panic"})
 
 
+ALPHABET = ["A", "D", "F", "H", "I", "M", "N", "O", "P", "S", "T", "W", "Y", "a", "d", "f", "h", "i", "m", "n", "o", "p", "s",
+            "t", "w", "y", "0", "1", "2", "4", "9", "-", ":", "/", "\\", ",", ".", ";", " ", "#"]
+TOKEN_SPELLINGS = ["YYYY", "YYY", "YY", "Y", "MONTH", "MON", "MM", "MI", "DDD", "DD", "DAY", "DY", "D", "HH24", "HH12", "HH", "SS",
+                   "FF", "FF1", "FF3", "FF6", "FF9", "A.M.", "P.M.", "AM", "PM", "WW", "W", "T", "-", ":", "/", "\\", ",", ".", ";", " "]
+PROBE_TS = [13608, 47289, 123456]     # 2007-04-05 13:08:09.123456, a Thursday
+
+
+def tla_str(ch):
+    return '"\\\\"' if ch == "\\" else '"%s"' % ch
+
+
+def tla_seq(chars):
+    return "<<" + ",".join(tla_str(ch) for ch in chars) + ">>"
+
+
+def picgen(v, tag, alphabet, k, prefixes, workers=6):
+    """Runs PicGen.tla; returns list of (picture chars, verdict, ntokens, text result)."""
+    wd = vlib.workdir("%s_picgen_%s" % (v.prop, tag))
+    mod = vlib.mc_module(wd, "MCPicGen", "PicGen", {
+        "MCAlpha": "{" + ",".join(tla_str(ch) for ch in alphabet) + "}",
+        "MCPre": "{" + ",".join(tla_seq(p) for p in prefixes) + "}"})
+    cfg = os.path.join(wd, "MC.cfg")
+    with open(cfg, "w") as fh:
+        fh.write("SPECIFICATION Spec\nCONSTANTS Alphabet <- MCAlpha\n K = %d\n Prefixes <- MCPre\nINVARIANTS LexFacts Emit\nCHECK_DEADLOCK FALSE\n" % k)
+    res = vlib.tlc(mod, cfg, workers=workers, xmx="6g", timeout=3000, cwd=wd)
+    if res.errors:
+        raise ToolError("PicGen(%s): spec invariant violated / error:\n%s" % (tag, "\n".join(res.errors) + res.out[-1500:]))
+    v.add_tlc(res, "tlc -config MC.cfg MCPicGen.tla (PicGen, K=%d, |Alphabet|=%d, %d prefixes)" % (k, len(alphabet), len(prefixes)))
+    gens = res.tagged("GEN")
+    if len(gens) != res.distinct:
+        raise ToolError("PicGen(%s): %d GEN lines for %d states" % (tag, len(gens), res.distinct))
+    shutil.rmtree(wd, ignore_errors=True)
+    return [(g[1], g[2], g[3], g[4]) for g in gens]
+
+
+def replay_pictures(v, tag, gens):
+    """Replays generated pictures: try_new verdict and the probe's text."""
+    plan = []
+    for pic, verdict, ntok, text in gens:
+        if verdict == 2:
+            plan.append(("F.try_new", [pic], ("nopanic",)))
+            plan.append(("TS.format", [PROBE_TS, pic], ("nopanic",)))
+        elif verdict == 1:
+            plan.append(("F.try_new", [pic], ("eq", [0, 0])))
+            plan.append(("TS.format", [PROBE_TS, pic], ("eq", text) if text[0] == 0 else ("err",)))
+        else:
+            plan.append(("F.try_new", [pic], ("err",)))
+            plan.append(("TS.format", [PROBE_TS, pic], ("err",)))
+    bad = replay_plan(v, tag, plan)
+    v.cov["distinct_nontrivial"] += len(gens)
+    v.cov["traces_validated_against_impl"] += 1
+    for op, args, r, exp in bad:
+        pic = args[-1]
+        v.mismatch("PicGen:" + op, {"op": op, "pic": "".join(pic), "len": len(pic)}, {"observed": r, "expected": list(exp)})
+    return len(plan)
+
+
+def random_pictures(v, n, maxtok=40):
+    import random
+    rnd = random.Random(v.seed * 7 + 1)
+    out = []
+    for i in range(n):
+        k = rnd.choice([1, 2, 3, 5, 8, 13, 20, 30, 35, 36, 37, 40]) if i % 3 else rnd.randint(1, maxtok)
+        pic = []
+        for _ in range(k):
+            sp = rnd.choice(TOKEN_SPELLINGS)
+            if sp == " ":
+                sp = " " * rnd.choice([1, 1, 2, 3, 7, 31, 100, 255, 256, 257, 300, 511, 512, 600])
+            mode = rnd.randint(0, 3)
+            sp = sp if mode == 0 else sp.lower() if mode == 1 else sp.capitalize() if mode == 2 else \
+                "".join(ch.lower() if rnd.random() < 0.5 else ch for ch in sp)
+            if sp in ("t",):
+                sp = "T"
+            pic += list(sp.replace("t", "T") if sp.upper() == "T" else sp)
+        out.append(pic)
+    return out
+
+
+@prop("C19")
+def c19(v):
+    v.cov["rule"] = ("(A) Pic.tla: reference tokenizer by case-insensitive longest match over the documented token table; TLC checks "
+                     "LexFacts in every state of PicGen. (spec->impl) PicGen.tla enumerates every string up to length K over the "
+                     "40-symbol alphabet (quick K=3: 65,641; thorough K=4: 2,625,641), every token x 2 followers, every token pair "
+                     "x follower, with verdict, token count and the text Render.tla gives a probe timestamp; replayed on "
+                     "Formatter::try_new and Timestamp formatting. (impl->spec) random token sequences up to 40 tokens, blank runs "
+                     "up to 600, judged by EventTrace.tla. distinct_nontrivial = distinct pictures.")
+    k = 3 if v.tier == "quick" else 4
+    gens = picgen(v, "all", ALPHABET, k, [[]], workers=max(4, vlib.NCPU - 4))
+    v.sample({"generated_pictures": [["".join(g[0]), g[1], g[2]] for g in gens[1000:1004]]})
+    replay_pictures(v, "all", gens)
+    toks = [list(s) for s in TOKEN_SPELLINGS] + [list(s.lower()) for s in TOKEN_SPELLINGS if s.isalpha() and s != "T"]
+    gens = picgen(v, "tokfollow", ALPHABET, 2, toks)
+    replay_pictures(v, "tokfollow", gens)
+    pairs = [list(a) + list(b) for a in TOKEN_SPELLINGS for b in TOKEN_SPELLINGS]
+    gens = picgen(v, "pairs", ALPHABET, 1, pairs)
+    replay_pictures(v, "pairs", gens)
+    if v.tier == "thorough":
+        small = ["A", "D", "F", "H", "M", "O", "N", "P", "S", "Y", "W", ".", "1", "2", " "]
+        gens = picgen(v, "len5", small, 5, [[]], workers=max(4, vlib.NCPU - 4))
+        replay_pictures(v, "len5", gens)
+    # impl -> spec: long random pictures
+    pics = random_pictures(v, 3000 if v.tier == "quick" else 30000)
+    plan = []
+    for p in pics:
+        plan.append(("F.try_new", [p]))
+        plan.append(("TS.format", [PROBE_TS, p]))
+    eventtrace(v, "randpics", plan, {"result", "panic"}, shard=1500)
+
+
 def replay(path):
     """Re-runs the check a replay file came from (same property, tier, seed)."""
     rp = json.load(open(path))
